@@ -150,8 +150,10 @@ CLAIMED.update({
             "Coq proof (transport-table frame lemmas, key injectivity, invariant along histories) + whole-proxy differential run with independent history judge"),
     "C13": ("Theorems for every Route set in any layout: C13_own_popped_iff (the top entry is consumed iff it designates the receiving listener: same port and same or same-resolving host), "
             "C13_next_hop_popped_iff_not_keep, C13_route / C13_route_decoded (the relayed Route entries are exactly skipn (own?1:0 + (next hop stripped?1:0)) of the received ones, near misses "
-            "included as the own = false branch), C13_route_view_grammar + C13_route_header_text (link to bytes through the C14 theorems).",
-            PROXY_NOTE,
+            "included as the own = false branch), C13_route_view_grammar + C13_route_header_text (link to bytes through the C14 theorems), "
+            "C13_keep_setting_decides / C13_keep_env_default (where the keep-next-hop-route setting comes from: the service's own text whenever it is "
+            "not empty, the environment variable KEEP_NEXT_HOP_ROUTE only for an empty one).",
+            PROXY_NOTE + "The real proxy is started under generated keepNextHopRoute spellings and KEEP_NEXT_HOP_ROUTE values.",
             "Coq proof (route view flattened over all Route headers, invariance under in-place decoding) + whole-proxy differential run with independent judge"),
     "C17": ("Theorems: C17_same_header_equiv/_refl/_sym/_trans (same_header = equality of the expanded lower-case names, for ALL names), commutation of every look-up/update/insert with "
             "respelling, C17_respell_invariance(_fun) and C17_respell_udp (the whole per-message pipeline on a respelled message: same state, same destinations, outputs that are "
